@@ -17,13 +17,15 @@ THOROUGH_RUNS = 300000
 QUICK_WALL = 100
 THOROUGH_WALL = 900
 CHUNK = 50
-RULE = ("catalogue of 40 units (SI prefixes, UDUNITS-style powers, rates, degC/K offset pair, percent, dimensionless "
+RULE = ("catalogue of 43 units (SI prefixes, UDUNITS-style powers, rates, degC/K offset pair, percent, dimensionless "
         "aliases, equivalent spellings, derived units) with a hand-written table (dimension vector, factor, offset); "
         "each run is a seeded HISTORY of 20-60 operations: compatible_units / equivalent_units queries in seeded "
         "order (reversed pair first, repeated), clear_units_cache, to_units on arrays, and real link traffic "
         "(quantity pushed in foreign units -> output units -> input units); every answer must equal the table and "
         "equal the first answer for that pair in this process history. non-trivial = history mixes >= 3 operation "
-        "kinds and >= 1 link; distinct = digest of the operation list")
+        "kinds and >= 1 link; distinct = digest of the operation list. A 1/40 share are long histories: 700-2600 "
+        "queries over a catalogue enlarged by ten SI prefixes on eight bases (123 spellings), then conversions and link "
+        "traffic on further pairs - the process-wide memo then holds far more than a thousand pairs")
 REAL = ["compatible_units", "equivalent_units", "to_units", "clear_units_cache", "prepare", "Input", "Output", "Info"]
 STUB = ["operation driver"]
 ASSUMPTIONS = ["the hand-written unit table in this file is the oracle (no pint in the expected values)",
@@ -54,6 +56,15 @@ CAT = {
     "dimensionless": (D0, 1.0, 0.0),
 }
 NAMES = sorted(CAT)
+# the long-history family draws from a larger catalogue: every SI prefix below on eight bases (all checked once against
+# the dimension table by hand: none of these spellings means another unit, e.g. "min" and "cd" are left out)
+_PREF = {"n": 1e-9, "u": 1e-6, "m": 1e-3, "c": 1e-2, "d": 1e-1, "da": 10.0, "h": 100.0, "k": 1e3, "M": 1e6, "G": 1e9}
+_BASES = {"m": ((1, 0, 0, 0), 1.0), "g": ((0, 0, 1, 0), 1e-3), "s": ((0, 1, 0, 0), 1.0), "Pa": ((-1, -2, 1, 0), 1.0),
+          "J": ((2, -2, 1, 0), 1.0), "W": ((2, -3, 1, 0), 1.0), "N": ((1, -2, 1, 0), 1.0), "l": ((3, 0, 0, 0), 1e-3)}
+for _b, (_d, _f) in _BASES.items():
+    for _p, _pf in _PREF.items():
+        CAT.setdefault(_p + _b, (_d, _pf * _f, 0.0))
+XNAMES = sorted(CAT)
 
 
 def conv(x, a, b):
@@ -78,6 +89,24 @@ def generate(tape, tier="quick"):
             ops.append([tape.choice(["compat", "equiv"]), a, b])
             ops.append(["equiv" if ops[-1][0] == "compat" else "compat", a, b])
         return {"engine": "U", "ops": ops, "clear_first": tape.chance(1, 2), "all_pairs": True}
+    if tape.chance(1, 40):
+        # long history: one to three thousand queries over the large catalogue (more than a thousand distinct pairs in
+        # the process-wide memo), then conversions and link traffic on pairs never seen before
+        ops = []
+        for _ in range(tape.weighted([(700, 2), (1300, 3), (2600, 2)])):
+            a = tape.choice(XNAMES)
+            b = tape.choice([u for u in XNAMES if CAT[u][0] == CAT[a][0]]) if tape.chance(1, 3) else tape.choice(XNAMES)
+            ops.append([tape.choice(["compat", "equiv"]), a, b])
+        for _ in range(12):
+            a = tape.choice(XNAMES)
+            same = [u for u in XNAMES if CAT[u][0] == CAT[a][0]]
+            b = tape.choice(same) if tape.chance(3, 4) else tape.choice(XNAMES)
+            if tape.chance(1, 2):
+                ops.append(["convert", a, b, tape.choice([0.0, 1.0, 2.5, 1000.0])])
+            else:
+                ops.append(["link", a, b, tape.choice(same) if tape.chance(3, 4) else tape.choice(XNAMES),
+                            tape.choice([1.0, 2.5, 300.0]), tape.choice([0, 0, 1, 2])])
+        return {"engine": "U", "ops": ops, "clear_first": True, "long_history": True}
     n = tape.weighted([(20, 4), (40, 3), (60, 1)])
     pool = [tape.choice(NAMES) for _ in range(tape.rng_int(3, 8))]
     ops = []
@@ -221,10 +250,11 @@ def execute(sc):
             v("unit-exception", type(e).__name__, f"op {oi} {op}: {type(e).__name__}: {e}")
         if viol:
             break
-    if sc.get("all_pairs"):
+    if sc.get("all_pairs") or sc.get("long_history"):
         kinds |= {"all-pairs-sweep", "x", "y"}
         nlink = max(nlink, 1)
     return {"violations": viol, "digest": digest_of(sc["ops"]), "nontrivial": len(kinds) >= 3 and nlink >= 1,
-            "probes": {"ops": len(sc["ops"]), "links": nlink, "pairs": len(first)}, "faults": {},
-            "sig": digest_of(sorted(kinds)), "cls": "all-pairs" if sc.get("all_pairs") else "history", "sim_hours": 0,
+            "probes": {"ops": len(sc["ops"]), "links": nlink, "pairs": len(first),
+                       "histories_with_over_1000_distinct_pairs": int(len({(o[1], o[2]) for o in sc["ops"] if len(o) > 2}) > 1000)}, "faults": {},
+            "sig": digest_of(sorted(kinds)), "cls": "all-pairs" if sc.get("all_pairs") else ("long-history" if sc.get("long_history") else "history"), "sim_hours": 0,
             "outcome": {"ops_head": sc["ops"][:5]}}
